@@ -340,6 +340,47 @@ let rec mty_of_sexp (e : sexp) : mty =
     MEnum (List.map (function L ts -> List.map mty_of_sexp ts | A _ -> failwith "bad enum variant") vs)
   | _ -> failwith "bad mty"
 
+(* ---------- Schema-impl type expressions (text form shared with harness/src/sty.rs) ---------- *)
+let dkind_of_atom = function
+  | "unit" -> DUnit | "newtype" -> DNewtype | "tuple" -> DTuple | "struct" -> DStruct
+  | s -> failwith ("bad form " ^ s)
+let rec sty_of_sexp (e : sexp) : sty =
+  let nn n = n_of_int (int_of_string n) in
+  match e with
+  | A "bool" -> YBool | A "f32" -> YF32 | A "f64" -> YF64 | A "char" -> YChar | A "unit" -> YUnit
+  | A "str" -> YStr | A "string" -> YString | A "pathbuf" -> YPathBuf
+  | A "uuid" -> YUuid | A "datetime" -> YDateTime | A "key" -> YKey
+  | A "ownedschema" -> YOwnedSchema | A "borrowedschema" -> YBorrowedSchema
+  | L [A "int"; A k] -> YInt (ikind_of_string k)
+  | L [A "nz"; A k] -> YNonZero (ikind_of_string k)
+  | L [A "opt"; t] -> YOption (sty_of_sexp t)
+  | L [A "res"; t; e] -> YResult (sty_of_sexp t, sty_of_sexp e)
+  | L [A "ref"; t] -> YRef (sty_of_sexp t)
+  | L [A "slice"; t] -> YSlice (sty_of_sexp t)
+  | L [A "arr"; t; A n] -> YArray (sty_of_sexp t, nn n)
+  | L (A "tup" :: ts) -> YTuple (List.map sty_of_sexp ts)
+  | L [A "range"; t] -> YRange (sty_of_sexp t)
+  | L [A "rangei"; t] -> YRangeInclusive (sty_of_sexp t)
+  | L [A "rangefrom"; t] -> YRangeFrom (sty_of_sexp t)
+  | L [A "rangeto"; t] -> YRangeTo (sty_of_sexp t)
+  | L [A "vec"; t] -> YVec (sty_of_sexp t)
+  | L [A "btreemap"; k; v] -> YBTreeMap (sty_of_sexp k, sty_of_sexp v)
+  | L [A "hashmap"; k; v] -> YHashMap (sty_of_sexp k, sty_of_sexp v)
+  | L [A "btreeset"; t] -> YBTreeSet (sty_of_sexp t)
+  | L [A "hashset"; t] -> YHashSet (sty_of_sexp t)
+  | L [A "hvec"; t; A n] -> YHVec (sty_of_sexp t, nn n)
+  | L [A "hstr"; A n] -> YHString (nn n)
+  | L (A "dstruct" :: A name :: A form :: fs) -> YDStruct (name_of_atom name, dkind_of_atom form, List.map sty_field fs)
+  | L (A "denum" :: A name :: vs) ->
+    YDEnum (name_of_atom name,
+            List.map (function
+                | L (A vn :: A form :: fs) -> ((name_of_atom vn, dkind_of_atom form), List.map sty_field fs)
+                | _ -> failwith "bad sty variant") vs)
+  | _ -> failwith "bad sty"
+and sty_field = function
+  | L [A n; t] -> ((if n = "_" then [] else name_of_atom n), sty_of_sexp t)
+  | _ -> failwith "bad sty field"
+
 (* ---------- named values (text form shared with harness/src/capture.rs) ---------- *)
 let rec nvalue_of_sexp (e : sexp) : nvalue =
   match e with
